@@ -64,6 +64,7 @@ type gen struct {
 	// requirement-tree mode (third batch, own random stream, gennested_test.go): definitions are built around nested
 	// submission requirements over groups of several descriptors, wallets are steered per group.
 	nest bool
+	ref  *rDef // requirement-tree mode: the reference's reading of the current definition, used to steer wallets only
 }
 
 // typeless returns the filter option with the `type` keyword removed. The values meant (not) to satisfy stay those of
